@@ -224,6 +224,9 @@ def run(ctx):
     def one(p):
         lvl, variant, label, pk, sig, m = p
         st, out, err = vc.run_lines(drivers[(lvl, variant)], [vc.verify_line(variant, pk, sig, m)], TIMEOUT_PROBE)
+        if st == "timeout":
+            # a loaded machine must not look like non-termination: a genuine runaway loop (2^31 doublings) also outlives this
+            st, out, err = vc.run_lines(drivers[(lvl, variant)], [vc.verify_line(variant, pk, sig, m)], 12 * TIMEOUT_PROBE)
         return st, (vc.parse_kv(out[0]) if out else {}), err
 
     results = vc.pmap(one, probes)
@@ -262,26 +265,6 @@ def run(ctx):
         if mk.get("guard") != c_guard:
             n_dis += 1
             dis_examples.append(dict(probe=label, impl="body %s" % ("reached" if c_guard == "1" else "not reached"), model=ml))
-    # optional: traversal bookkeeping of the real loops (hook H3 of engineer a3, if present in the tree) vs the simulators
-    tr_idx = [i for i, (st, kv, _) in enumerate(results) if st == "ok" and kv.get("trace", "-") not in ("-", "e4:-;th:-")]
-    if tr_idx:
-        tmodel = ctx.driver([vc.trav_line(probes[i][1], probes[i][0], probes[i][3], probes[i][4]) for i in tr_idx])
-        tbad = []
-        for i, tm in zip(tr_idx, tmodel):
-            got = results[i][1]["trace"]
-            ge, gt = got.split(";")
-            me, mt_ = tm.split(";")
-            if (ge != "e4:-" and ge != me) or (gt != "th:-" and gt != mt_):
-                tbad.append(dict(probe=probes[i][2], level=probes[i][0], variant=probes[i][1], impl=got, model=tm))
-        ctx.obligation("correspondence traversal simulators sim4/sim2 vs H3 trace of the real loops (%d runs)" % len(tr_idx), not tbad, json.dumps(tbad[:4])[:600])
-        if tbad:
-            n_dis += len(tbad)
-            dis_examples += [dict(probe=b["probe"], impl=b["impl"], model=b["model"]) for b in tbad[:3]]
-        ctx.coverage["h3_trace_runs"] = len(tr_idx)
-        ctx.coverage["h3_trace_chain_reached"] = sum(1 for i in tr_idx if "th:-" not in results[i][1]["trace"])
-    else:
-        ctx.coverage["h3_trace_runs"] = 0
-        ctx.log("hook H3 (traversal trace) not present in the tree: simulators not compared with the real loops in this run")
     ctx.obligation("correspondence verifyAccesses/guard vs sanitizer run (%d probes)" % len(probes), n_dis == 0, json.dumps(dis_examples[:5])[:600])
     if n_dis and not ctx.violations:
         ctx.violation("C03:correspondence:" + json.dumps(dis_examples[0])[:120], "access/guard model disagrees with the implementation", dict(disagreements=dis_examples[:10]), found=False)
